@@ -45,6 +45,7 @@ type Engine struct {
 	closerMemo *closerInfo
 	deadMemo   map[*ssa.Function]bool
 	bindings   map[string]*fnBindings
+	knownFns   map[string]bool
 	bindMu     sync.Mutex
 	relevantGhosts map[string]bool
 	deadSkipped map[string]bool
